@@ -1,0 +1,168 @@
+//go:build verif
+// +build verif
+
+// Verification hook (property C04): read-only dumps of an AccountDB for the
+// correspondence harness in /verif. Compiled only with `-tags verif`.
+
+package account
+
+import (
+	"bytes"
+	"encoding/hex"
+	"fmt"
+	"sort"
+	"strings"
+
+	"com.tuntun.rangers/node/src/common"
+	"com.tuntun.rangers/node/src/storage/rlp"
+	"com.tuntun.rangers/node/src/storage/trie"
+)
+
+func verifHex(b []byte) string {
+	if len(b) == 0 {
+		return "-"
+	}
+	return hex.EncodeToString(b)
+}
+
+func verifKV(m map[string][]byte) string {
+	keys := make([]string, 0, len(m))
+	for k := range m {
+		keys = append(keys, k)
+	}
+	sort.Strings(keys)
+	parts := make([]string, 0, len(keys))
+	for _, k := range keys {
+		parts = append(parts, verifHex([]byte(k))+"="+verifHex(m[k]))
+	}
+	return strings.Join(parts, ",")
+}
+
+func verifTrieKV(t Trie) string {
+	type kv struct{ k, v []byte }
+	var all []kv
+	it := trie.NewIterator(t.NodeIterator(nil))
+	for it.Next() {
+		all = append(all, kv{append([]byte{}, it.Key...), append([]byte{}, it.Value...)})
+	}
+	if it.Err != nil {
+		return "?" + strings.ReplaceAll(it.Err.Error(), " ", "_")
+	}
+	sort.Slice(all, func(i, j int) bool { return bytes.Compare(all[i].k, all[j].k) < 0 })
+	parts := make([]string, 0, len(all))
+	for _, e := range all {
+		parts = append(parts, verifHex(e.k)+"="+verifHex(e.v))
+	}
+	return strings.Join(parts, ",")
+}
+
+// VerifDumpContent lists the content of the account trie as it currently is
+// (including un-committed changes): addr:nonce:codehash:key=value,... per leaf,
+// sorted by address, ";"-separated; "empty" for the empty trie.
+func VerifDumpContent(adb *AccountDB) string {
+	type leaf struct {
+		addr []byte
+		s    string
+	}
+	var leaves []leaf
+	it := trie.NewIterator(adb.trie.NodeIterator(nil))
+	for it.Next() {
+		var data Account
+		if err := rlp.DecodeBytes(it.Value, &data); err != nil {
+			leaves = append(leaves, leaf{append([]byte{}, it.Key...), verifHex(it.Key) + ":?rlp"})
+			continue
+		}
+		addr := common.BytesToAddress(it.Key)
+		var st string
+		var tr Trie
+		if o, ok := adb.accountObjects.Load(addr); ok {
+			obj := o.(*accountObject)
+			if obj.trie != nil && obj.trie.Hash() == data.Root {
+				tr = obj.trie
+			}
+		}
+		if tr == nil {
+			t2, err := adb.db.OpenStorageTrie(common.Hash{}, data.Root)
+			if err != nil {
+				st = "?open"
+			} else {
+				tr = t2
+			}
+		}
+		if tr != nil {
+			st = verifTrieKV(tr)
+		}
+		leaves = append(leaves, leaf{append([]byte{}, it.Key...),
+			fmt.Sprintf("%s:%d:%s:%s", verifHex(it.Key), data.Nonce, verifHex(data.NFTSetDefinitionHash), st)})
+	}
+	if it.Err != nil {
+		return "?" + strings.ReplaceAll(it.Err.Error(), " ", "_")
+	}
+	if len(leaves) == 0 {
+		return "empty"
+	}
+	sort.Slice(leaves, func(i, j int) bool { return bytes.Compare(leaves[i].addr, leaves[j].addr) < 0 })
+	parts := make([]string, 0, len(leaves))
+	for _, l := range leaves {
+		parts = append(parts, l.s)
+	}
+	return strings.Join(parts, ";")
+}
+
+// VerifInternals prints the hidden state that decides what Finalise will do:
+// journal length, revision stack, dirty set and per cached object its flags,
+// nonce, cachedStorage and dirtyStorage.
+func VerifInternals(adb *AccountDB) string {
+	var sb strings.Builder
+	fmt.Fprintf(&sb, "J%d R", len(adb.transitions))
+	for i, r := range adb.validRevisions {
+		if i > 0 {
+			sb.WriteByte(',')
+		}
+		fmt.Fprintf(&sb, "%d@%d", r.id, r.journalIndex)
+	}
+	fmt.Fprintf(&sb, " N%d D[", adb.nextRevisionID)
+	var dirty []string
+	for a := range adb.accountObjectsDirty {
+		dirty = append(dirty, string(a[:]))
+	}
+	sort.Strings(dirty)
+	for i, a := range dirty {
+		if i > 0 {
+			sb.WriteByte(',')
+		}
+		sb.WriteString(verifHex([]byte(a)))
+	}
+	sb.WriteString("] O{")
+	type ent struct {
+		a string
+		o *accountObject
+	}
+	var objs []ent
+	adb.accountObjects.Range(func(k, v interface{}) bool {
+		a := k.(common.Address)
+		objs = append(objs, ent{string(a[:]), v.(*accountObject)})
+		return true
+	})
+	sort.Slice(objs, func(i, j int) bool { return objs[i].a < objs[j].a })
+	bit := func(b bool) string {
+		if b {
+			return "1"
+		}
+		return "0"
+	}
+	for i, e := range objs {
+		if i > 0 {
+			sb.WriteByte(';')
+		}
+		o := e.o
+		fmt.Fprintf(&sb, "%s:%s%s%s%s%s%s:n%d:C[%s]:Y[%s]", verifHex([]byte(e.a)),
+			bit(o.suicided), bit(o.touched), bit(o.deleted), bit(o.onDirty != nil), bit(o.dirtyNFTSet), bit(o.nftSet != nil),
+			o.data.Nonce, verifKV(o.cachedStorage), verifKV(o.dirtyStorage))
+	}
+	sb.WriteString("}")
+	return sb.String()
+}
+
+// VerifTokenContract returns the process-wide cached bound token contract.
+func VerifTokenContract() common.Address { return rpgContractAddress }
